@@ -11,7 +11,9 @@
    needs to drain completely, which keeps all products below 2^31 without changing the level.
    "Current RTT estimate" is read in the weakest way that cannot flag conforming code: the
    larger of the estimates logged at the two latest step() calls (the credit cap is computed in
-   step() before that step's feedback updates the estimate; frames leave afterwards). *)
+   step() before that step's feedback updates the estimate; frames leave afterwards), and, while
+   the bucket has not been empty, the largest such value since it last was (the bytes still in the
+   bucket were paid for by credit granted under those estimates). *)
 EXTENDS TraceIO
 
 VARIABLES
@@ -19,25 +21,26 @@ VARIABLES
     level,    \* [ep -> bucket level in milli-bytes]
     tPrev,    \* [ep -> time of the latest emission, ms]
     rttNow, rttPrev,   \* [ep -> RTT estimate in ms (rounded up) at the latest / previous step, 0 if none]
+    rttMax,   \* [ep -> largest RTT estimate in force since the bucket was last empty]
     tStep, gapNow, gapPrev,   \* [ep -> time of the latest step; largest step spacing so far (ms); largest RTT estimate so far (ms)]
     nemit,    \* emissions judged (evidence)
     peak,     \* largest level/bound ratio seen, in percent (evidence)
     bad
 
-vars == <<l, ceil, level, tPrev, rttNow, rttPrev, tStep, gapNow, gapPrev, nemit, peak, bad>>
+vars == <<l, ceil, level, tPrev, rttNow, rttPrev, rttMax, tStep, gapNow, gapPrev, nemit, peak, bad>>
 Eps == {"a", "b"}
 Zero == [e \in Eps |-> 0]
 Max(a, b) == IF a > b THEN a ELSE b
 Min(a, b) == IF a < b THEN a ELSE b
 
-Init == /\ l = 1 /\ ceil = Zero /\ level = Zero /\ tPrev = Zero /\ rttNow = Zero /\ rttPrev = Zero /\ tStep = Zero /\ gapNow = Zero /\ gapPrev = Zero /\ nemit = 0 /\ peak = 0 /\ bad = {}
+Init == /\ l = 1 /\ ceil = Zero /\ level = Zero /\ tPrev = Zero /\ rttNow = Zero /\ rttPrev = Zero /\ rttMax = Zero /\ tStep = Zero /\ gapNow = Zero /\ gapPrev = Zero /\ nemit = 0 /\ peak = 0 /\ bad = {}
 
 Flag(p, why) == IF Cardinality(bad) < 200 THEN {<<p, why, l>>} ELSE {}
 
 Reset ==
     /\ IsEvent("Reset")
     /\ ceil' = [e \in Eps |-> IF e = "a" THEN Cur.ceil_a ELSE Cur.ceil_b]
-    /\ level' = Zero /\ tPrev' = Zero /\ rttNow' = Zero /\ rttPrev' = Zero /\ tStep' = Zero /\ gapNow' = Zero /\ gapPrev' = Zero
+    /\ level' = Zero /\ tPrev' = Zero /\ rttNow' = Zero /\ rttPrev' = Zero /\ rttMax' = Zero /\ tStep' = Zero /\ gapNow' = Zero /\ gapPrev' = Zero
     /\ UNCHANGED <<nemit, peak, bad>>
 
 Step ==
@@ -49,7 +52,7 @@ Step ==
           /\ gapPrev' = [gapPrev EXCEPT ![e] = Max(@, ms)]
           /\ gapNow' = [gapNow EXCEPT ![e] = IF tStep[e] = 0 THEN @ ELSE Max(@, Min(Max(Cur.t - tStep[e], 0), 100000))]
           /\ tStep' = [tStep EXCEPT ![e] = Cur.t]
-    /\ UNCHANGED <<ceil, level, tPrev, nemit, peak, bad>>
+    /\ UNCHANGED <<ceil, level, tPrev, rttMax, nemit, peak, bad>>
 
 Emit ==
     /\ IsEvent("Emit")
@@ -59,11 +62,17 @@ Emit ==
            \* (keeps r * dt below 2^31 without under-estimating the drain)
            dt == IF r > 0 THEN Min(Max(Cur.t - tPrev[e], 0), level[e] \div r + 1) ELSE 0
            lv == Cur.len * 1000 + Max(0, level[e] - r * dt)
-           rtt == Max(rttNow[e], rttPrev[e])
+           \* "current RTT estimate": the credit that paid for the bytes still in the bucket was granted under the
+           \* estimates in force since the bucket was last empty, so the allowance is the largest of those (an
+           \* estimate that shrinks while the sender runs at the ceiling must not turn earlier, permitted bursts
+           \* into violations)
+           drained == level[e] - r * dt <= 0
+           rtt == IF drained THEN Max(rttNow[e], rttPrev[e]) ELSE Max(rttMax[e], Max(rttNow[e], rttPrev[e]))
            judged == r >= 1472 /\ r <= 2000000 /\ r * Min(rtt, 1000) <= 1000000000 /\ rtt <= 1000000000 \div r
            bound == r * rtt + 1472000
        IN /\ level' = [level EXCEPT ![e] = Min(lv, 2000000000)]
           /\ tPrev' = [tPrev EXCEPT ![e] = Cur.t]
+          /\ rttMax' = [rttMax EXCEPT ![e] = rtt]
           \* Credit is granted in step() for the time since the previous step (capped at rate * RTT)
           \* but spent by flushes after it: a flush / step / flush sequence at one instant can put
           \* that much credit plus one more frame on the wire at once, and a sender running at the
@@ -79,7 +88,7 @@ Emit ==
 
 Skip ==
     /\ IsOneOf({"End", "FaultsEnd", "Net", "Deliver", "Ret", "Probes", "FlushEnd", "RecvEnd", "Send", "Probe", "Handle", "Quiesced"})
-    /\ UNCHANGED <<ceil, level, tPrev, rttNow, rttPrev, tStep, gapNow, gapPrev, nemit, peak, bad>>
+    /\ UNCHANGED <<ceil, level, tPrev, rttNow, rttPrev, rttMax, tStep, gapNow, gapPrev, nemit, peak, bad>>
 
 Next == Reset \/ Step \/ Emit \/ Skip
 Spec == Init /\ [][Next]_vars
